@@ -414,6 +414,9 @@ func iterElems(v V) ([]V, bool) {
 }
 
 func stringMethod(name string, s []byte, args []V) (V, bool) {
+	if name == "format" {
+		return errV, false // no copy of the specification here: CPython only
+	}
 	wantStr := func(i int) ([]byte, bool) {
 		if len(args) <= i || args[i].T != "str" {
 			return nil, false
@@ -948,6 +951,9 @@ func oracle(c *Case) (V, *V, bool) {
 		return v, nil, ok
 	case "bin":
 		x, y := *c.X, c.Args[0]
+		if c.Name == "%" {
+			return errV, nil, false
+		}
 		if c.Name == "+" {
 			// spec.md "Concatenation": string + string, list + list, tuple + tuple (not bytes)
 			if !isSeq(x) || x.T != y.T || x.T == "bytes" {
